@@ -181,6 +181,56 @@ func init() {
 	}
 }
 
+// ---- bcount: number of true entries of a boolean field over a range of a slice of structs ----
+
+func bcountApp(row, lo, hi *Term) *Term {
+	if row.Op == "ite" {
+		return Ite(row.Args[0], bcountApp(row.Args[1], lo, hi), bcountApp(row.Args[2], lo, hi))
+	}
+	return App("spec|bcount", BVSort(64), row, lo, hi)
+}
+
+func init() {
+	specAxioms["spec|bcount"] = func(app *Term) []*Term {
+		row, lo, hi := app.Args[0], app.Args[1], app.Args[2]
+		one, z := BVi(1, 64), BVi(0, 64)
+		b2i := func(b *Term) *Term { return Ite(b, one, z) }
+		small := And(SLe(z, lo), SLe(hi, BVi(1<<42, 64)))
+		n := Ite(SLt(lo, hi), Sub(hi, lo), z)
+		out := []*Term{
+			Implies(SLe(hi, lo), Eq(app, z)),
+			Implies(And(SLt(lo, hi), small), Eq(app, Add(bcountApp(row, lo, Sub(hi, one)), b2i(Select(row, Sub(hi, one)))))),
+			Implies(And(SLt(lo, hi), small), Eq(app, Add(b2i(Select(row, lo)), bcountApp(row, Add(lo, one), hi)))),
+			Implies(small, And(SLe(z, app), SLe(app, n))),
+		}
+		if row.Op == "store" {
+			i, v, r0 := row.Args[1], row.Args[2], row.Args[0]
+			out = append(out,
+				Implies(Or(SLt(i, lo), SLe(hi, i)), Eq(app, bcountApp(r0, lo, hi))),
+				Implies(And(SLe(lo, i), SLt(i, hi), small), Eq(app, Add(Sub(bcountApp(r0, lo, hi), b2i(Select(r0, i))), b2i(v)))))
+		}
+		return out
+	}
+	// countb(s, field): number of elements of slice s whose boolean field is true
+	specLibraryLate["countb"] = func(env *SpecEnv, x []ast.Expr) Value {
+		sl, ok := env.eval(x[0]).(SlV)
+		if !ok {
+			specErr("countb needs a slice")
+		}
+		id, ok := x[1].(*ast.Ident)
+		if !ok {
+			specErr("countb(slice, fieldname)")
+		}
+		et := sl.Ty.Underlying().(*types.Slice).Elem()
+		name := "E|" + typeKey(et) + "|" + id.Name
+		row := Select(env.st.heap(name, ArraySort(RefSort, ArraySort(IntSort, BoolSort))), sl.Arr)
+		return Sc{bcountApp(row, sl.Off, Add(sl.Off, sl.Len)), tInt}
+	}
+}
+
+// specLibraryLate: library forms that take unevaluated arguments (field names etc.)
+var specLibraryLate = map[string]func(env *SpecEnv, args []ast.Expr) Value{}
+
 func intArg(v Value) *Term {
 	s, ok := v.(Sc)
 	if !ok {
